@@ -490,6 +490,22 @@ def okMVSlots (S : Ir.Side) (vvty : Var → VTy) : VSlots → Bool
   | .cons _ e r => okMV S vvty e && okMVSlots S vvty r
 end
 
+/-- the assigned place of a statement-level assignment: a vector variable in scope, or a swizzle with distinct components
+of a variable of *vector* type (on a scalar the exporter emits no member) -/
+def placeOKM (vis : Var → Bool) (vvty : Var → VTy) : VExpr → Bool
+  | .vvar id => vis (.loc id)
+  | .vglobal id => vis (.glob id)
+  | .swz (.vvar id) sl => vis (.loc id) && (match vvty (.loc id) with | .vec _ _ => true | _ => false) && decide ((sl.map slotIdx).Nodup)
+  | .swz (.vglobal id) sl => vis (.glob id) && (match vvty (.glob id) with | .vec _ _ => true | _ => false) && decide ((sl.map slotIdx).Nodup)
+  | _ => false
+
+/-- operands of a binary / compound operator carried out at type `T`: a scalar `T` must be int / uint (shifts) or
+int / uint / float; `%` needs a non-float kind -/
+def binSideB (m : MBin) (T : VTy) : Bool :=
+  (match T with
+    | .sc k => if Msl.isShift m then intK k else arithK k
+    | .vec _ _ => true) && !(m == .mod && T.scalar == .float)
+
 /-- the shape a value of a type has -/
 def shaped : VTy → VVal → Bool
   | .sc _, .sc _ => true
